@@ -33,7 +33,8 @@ GEN_JSON = os.path.join(GEN_DIR, "AncRegistry.json")
 # ---- fixed ids shared with coq/Model/C06.v (section "well-known ids") -----
 WK_FEATS = {"temp": 1, "fl1_max": 2, "fl2_max": 3, "fl3_max": 4,
             "emodulus": 5, "bg_off": 6, "ml_class": 7, "time": 8,
-            "frame": 9, "area_um": 10, "deform": 11}
+            "frame": 9, "area_um": 10, "deform": 11, "fl1_max_ctc": 12,
+            "fl2_max_ctc": 13, "fl3_max_ctc": 14}
 WK_KEYS = {("calculation", "emodulus lut"): 1,
            ("calculation", "emodulus medium"): 2,
            ("calculation", "emodulus temperature"): 3,
